@@ -66,7 +66,8 @@ var two63 = math.Ldexp(1, 63)
 
 // matchThreshold: floatToString decides the 9.8.1 layout with
 // math.Log10(|x|) >= 21 / < -6, whose rounding error misplaces values just
-// below 1e21 and just below 1e-6: same digits, the other layout.
+// below 1e21 and just below 1e-6: same (oracle) digits, the layout that the
+// rounded logarithm selects.
 func matchThreshold(in Input, f *run.Failure) bool {
 	x := float64(in.X)
 	switch in.Op {
@@ -93,14 +94,12 @@ func matchThreshold(in Input, f *run.Failure) bool {
 		sign = "-"
 	}
 	d, n, _ := refnum.Shortest(math.Abs(x))
-	if n != 21 && n != -6 && n != 22 && n != -5 {
-		return false
+	// the defect, re-enacted: the layout is chosen from the rounded logarithm
+	model := refnum.FixedLayout(d, n)
+	if lg := math.Log10(math.Abs(x)); lg >= 21 || lg < -6 {
+		model = refnum.ExpLayout(d, n)
 	}
-	alt := refnum.ExpLayout(d, n)
-	if refnum.Layout(d, n) == alt {
-		alt = refnum.FixedLayout(d, n)
-	}
-	return f.Actual == encStr(sign+alt)
+	return f.Actual == encStr(sign+model)
 }
 
 func fitsInt64(v *big.Int) bool { return v.IsInt64() }
